@@ -1,4 +1,4 @@
-import PrimaiteModel.Model.HealthDyn
+import PrimaiteModel.Model.HealthObs
 open Primaite Primaite.Health
 
 namespace DrvC14
@@ -44,7 +44,7 @@ def showSw (x : Sw) : String :=
   s!"{x.name}:{showOpSt x.op}:{showSwH x.actual}:{showSwH x.visible}:{showOI x.fixCd}:{showOI x.auxCd}"
 def showFile (f : File) : String := s!"{f.name}:{showFsH f.actual}:{showFsH f.visible}:{showBool f.deleted}"
 def showFolder (F : Folder) : String :=
-  s!"{F.name}:{showBool F.deleted}:{showFsH F.actual}:{showFsH F.visible}:{F.scanCd}:{F.restoreCd}[" ++
+  s!"{F.name}:{showBool F.deleted}:{showFsH F.actual}:{showFsH F.visible}:{F.scanCd}:{F.restoreCd}:{showBool F.scanned}[" ++
     ",".intercalate (F.files.map showFile) ++ "]"
 def sortNames (l : List String) : List String := (l.eraseDups).mergeSort (fun a b => decide (a ≤ b))
 
@@ -62,9 +62,38 @@ def dump (n : Node) : String :=
   s!"P={showPower n.power},{n.startCd},{n.shutCd},{showBool n.resetting},{n.scanCd},{n.redCd} S=" ++
     " ".intercalate (n.sws.map showSw) ++ " F=" ++ " ".intercalate (n.folders.map showFolder) ++ " V=" ++ view n
 
-def init : DNode :=
+def init0 : DNode :=
   { n := { power := .on, startDur := 3, startCd := 0, shutDur := 3, shutCd := 0, resetting := false, scanDur := 10, scanCd := 0,
            sws := [], folders := [] }, defScan := none, defRestore := none }
+
+/-- driver state: the node, one `FolderObservation` (requires_scan) per folder name seen so far, and what each reported last -/
+structure St where
+  d : DNode
+  obs : List (FolderObs × FsH) := []
+
+def init : St := { d := init0 }
+
+/-- every observer looks at the node: per folder name one observer WITH `file_system_requires_scan` and one WITHOUT (a name without
+observers yet gets fresh ones) -/
+def observeAll (st : St) : St :=
+  let names := sortNames (st.d.n.folders.map (·.name))
+  let obs := names.flatMap (fun nm => [true, false].map (fun rq =>
+    let o : FolderObs := match st.obs.find? (fun p => p.1.name = nm && p.1.requiresScan = rq) with
+      | some p => p.1
+      | none => { name := nm, requiresScan := rq }
+    let r := o.observe st.d.n
+    (r.2, r.1)))
+  { st with obs := obs ++ st.obs.filter (fun p => !names.contains p.1.name) }
+
+def showObs (st : St) : String :=
+  ",".intercalate (((st.obs.filter (fun p => p.1.requiresScan)).mergeSort (fun a b => decide (a.1.name ≤ b.1.name))).map
+    (fun p =>
+      let raw := match st.obs.find? (fun q => q.1.name = p.1.name && !q.1.requiresScan) with
+        | some q => showFsH q.2
+        | none => "-"
+      s!"{p.1.name}={showFsH p.2}/{showFsH p.1.cached}/{raw}"))
+
+def dumpSt (st : St) : String := dump st.d.n ++ " O=" ++ showObs st
 
 def parseSpec (name k fd ad h : String) : Option SwSpec := do
   some { name := name, isApp := (← parseKind k), fixDur := (← fd.toInt?), auxDur := (← ad.toInt?), h0 := (← parseSwH h) }
@@ -143,28 +172,44 @@ def setup (n : Node) (ws : List String) : Option (Node × String) :=
     | _, _, _, _ => some (n, "bad-op")
   | _ => none
 
-def step (d : DNode) (ws : List String) : DNode × String :=
+/-- `tick` / `tickdb` lines are `pre_timestep; apply_timestep; <every observer looks>` (what the rig does on the implementation);
+`pre` is `pre_timestep` alone; `apply` / `applydb` are `apply_timestep; <observe>` alone — so that a game step
+`pre; requests; apply` can be replayed in its own order. -/
+def step (st : St) (ws : List String) : St × String :=
+  let d := st.d
   match setup d.n ws with
-  | some (n', r) => ({ d with n := n' }, r)
+  | some (n', r) => ({ st with d := { d with n := n' } }, r)
   | none =>
   match ws with
   | ["fsdefaults", sd, rd] =>
     match parseOpt String.toInt? sd, parseOpt String.toInt? rd with
-    | some sd, some rd => ({ d with defScan := sd, defRestore := rd }, "ok")
-    | _, _ => (d, "bad-op")
-  | ["dump"] => (d, dump d.n)
-  | ["noop"] => (d, s!"ok | {dump d.n}")
-  | ["wf"] => (d, showBool d.n.wf)
+    | some sd, some rd => ({ st with d := { d with defScan := sd, defRestore := rd } }, "ok")
+    | _, _ => (st, "bad-op")
+  | ["dump"] => (st, dumpSt st)
+  | ["noop"] => (st, s!"ok | {dumpSt st}")
+  | ["wf"] => (st, showBool d.n.wf)
+  | ["pre"] =>
+    let st' := { st with d := { d with n := d.n.pre } }
+    (st', s!"ok | {dumpSt st'}")
   | ws =>
+    let (ws, doPre, isTick) : List String × Bool × Bool := match ws with
+      | "tick" :: r => ("tick" :: r, true, true)
+      | "tickdb" :: r => ("tickdb" :: r, true, true)
+      | "apply" :: r => ("tick" :: r, false, true)
+      | "applydb" :: r => ("tickdb" :: r, false, true)
+      | ws => (ws, false, false)
     let op? : Option DOp := match parseOp ws with
       | some op => some (.base op)
       | none => parseDOp ws
     match op? with
     | some op =>
-      if d.restoreAmbiguous op then (d, "ambiguous") else
-      let (d', r) := d.step op
-      (d', s!"{showResp r} | {dump d'.n}")
-    | none => (d, "bad-op")
+      if d.restoreAmbiguous op then (st, "ambiguous") else
+      let d0 : DNode := if doPre then { d with n := d.n.pre } else d
+      let (d', r) := d0.step op
+      let st' : St := { st with d := d' }
+      let st' := if isTick then observeAll st' else st'
+      (st', s!"{showResp r} | {dumpSt st'}")
+    | none => (st, "bad-op")
 
 end DrvC14
 
